@@ -98,6 +98,8 @@ pub struct Case {
     /// `Clone::clone` of an element is a scheduling point of its own
     pub clonepoint: bool,
     pub rawskip: bool,
+    /// `relocate k`: before the k-th operation of thread 0 (single-thread cases) the iterator value is moved to another address
+    pub relocate: Option<usize>,
     pub clonefrom: bool,
     pub threads: Vec<Vec<Op>>,
     pub owner: Owner,
@@ -395,6 +397,7 @@ struct Partial {
     inpanic: Vec<usize>,
     clonepoint: bool,
     rawskip: bool,
+    relocate: Option<usize>,
     clonefrom: bool,
     threads: Vec<Vec<Op>>,
     owner: Option<Owner>,
@@ -455,6 +458,7 @@ fn finish(p: Partial) -> Result<Case, String> {
         inpanic: p.inpanic,
         clonepoint: p.clonepoint,
         rawskip: p.rawskip,
+        relocate: p.relocate,
         clonefrom: p.clonefrom,
         spare: p.spare,
         threads: p.threads,
@@ -539,6 +543,12 @@ pub fn parse_cases(text: &str) -> Result<Vec<Case>, String> {
             }
             "rawskip" => {
                 p.rawskip = true;
+            }
+            "relocate" => {
+                let k = toks
+                    .get(1)
+                    .ok_or_else(|| format!("line {ln}: relocate <k>"))?;
+                p.relocate = Some(num::<usize>(k, "relocate", ln)?);
             }
             "clonefrom" => {
                 p.clonefrom = true;
